@@ -436,6 +436,8 @@ def search_C13(tier, rng):
 
 
 def replay_C13(prop, f):
+    if f.get('readers'):
+        return bool(check_c13_readers(f['readers']))
     if f.get('history'):
         return bool(check_c13_history(f['kind'], f['args'], [(k, a) for k, a in f['later']], f['ro_spec']))
     return replay_generic(prop, f)
